@@ -32,6 +32,22 @@ META = {
                 tech="stateless deviation-bounded exploration of extend/remove histories + list model of membership",
                 text="extend/remove of self, siblings, completed, absent and duplicate doers from inside running doers at every step, owners Doist and DoDoer(always); timing clauses and scheduler.doers vs list model checked after every call.",
                 note="extend from inside enter is outside the quantifier. Re-adding a self-removed still-running doer is not in the alphabet."),
+    "C08": dict(cat="model_checking", eng="E3 op-sequence enumeration", ref="3 (C08)",
+                tech="exhaustive enumeration of all timer operation sequences up to a depth against a start/stop model",
+                text="All sequences (depth 5/7) of advance/rewind/start/restart on a real Tymer are compared float-exactly with a model written from the statement; all sequences (depth 6/8) of clock jumps/reads/starts on a real MonoTimer (retro True/False) are checked for monotone elapsed and sticky expired.",
+                note="Fake clock installed as hio.help.timing.time; dyadic values keep MonoTimer arithmetic exact."),
+    "C26": dict(cat="exploration", eng="E3 full enumeration", ref="3 (C26)",
+                tech="exhaustive enumeration of small input domains against arithmetic written from the statement",
+                text="Every integer below 2^18/2^22 x lengths 1..6 plus power-of-64 boundaries; every Base64 string up to length 3/4; every byte string up to 2/3 bytes x admissible sextet counts.",
+                note="l=0 excluded (documented empty soft part)."),
+    "C27": dict(cat="model_checking", eng="E2 BFS", ref="3 (C27)",
+                tech="explicit-state BFS of the full reachable state graph of the real Namer with a dict-pair model in lock step",
+                text="The reachable graph over names {a,b,c,'',None} x addrs {x,y,z,'',None} and all 5 operations is closed (34 states); inverse/injective invariant in every state; rejected operations must not mutate.",
+                note="Domains of 3 names / 3 addresses; also from constructor-seeded states."),
+    "C28": dict(cat="exploration", eng="E3 term enumeration", ref="3 (C28)",
+                tech="exhaustive enumeration of field values (terms of bounded size) x shapes x formats, round-trip equality",
+                text="8 dataclass shapes (flat, frozen, tyme-stamped, nested 1-2 levels) x JSON/CBOR/MGPK x every term of <= 3/4 nodes over 15 atoms.",
+                note="Common representable domain only (no tuples/bytes/NaN/non-str keys)."),
     "C30": dict(cat="model_checking", eng="E1-sched + virtual asyncio loop, differential", ref="3 (C30), 2 (virtual loop)",
                 tech="stateless exploration incl. all asyncio ready-queue orders on a hand-stepped event loop; do() vs ado() differential",
                 text="Each program is run with do() and with ado() on a virtual BaseEventLoop with 0..2 spinning competitor tasks; the explorer also picks which ready handle runs next; traces, tymes, done flags must be identical.",
